@@ -32,6 +32,7 @@ type GhostLoopVar struct {
 	Type   string
 	Init   Expr
 	Update Expr
+	Target Expr // ghostret r.$f := e: assignment to a ghost field of an object named at the return
 }
 
 type AssertAt struct {
@@ -544,14 +545,24 @@ func ParseSpecFile(path string, pkgPath string) (*SpecFile, error) {
 			cur.yieldInline = true
 		case "ghostret":
 			n, r2 := firstWord(rest)
-			if !strings.HasPrefix(n, "$") || !strings.HasPrefix(strings.TrimSpace(r2), ":=") {
+			var target Expr
+			if !strings.HasPrefix(n, "$") && strings.Contains(n, ".$") {
+				te, err := ParseExpr(n)
+				if err != nil {
+					return nil, fmt.Errorf("%s:%d: %v", path, it.line, err)
+				}
+				target = te
+			} else if !strings.HasPrefix(n, "$") {
+				return nil, fmt.Errorf("%s:%d: ghostret wants '$v := expr' or 'r.$f := expr'", path, it.line)
+			}
+			if !strings.HasPrefix(strings.TrimSpace(r2), ":=") {
 				return nil, fmt.Errorf("%s:%d: ghostret wants '$v := expr'", path, it.line)
 			}
 			e, err := ParseExpr(strings.TrimPrefix(strings.TrimSpace(r2), ":="))
 			if err != nil {
 				return nil, fmt.Errorf("%s:%d: %v", path, it.line, err)
 			}
-			cur.GhostRets = append(cur.GhostRets, GhostLoopVar{Name: n, Init: e})
+			cur.GhostRets = append(cur.GhostRets, GhostLoopVar{Name: n, Init: e, Target: target})
 		case "ghostset":
 			n, r2 := firstWord(rest)
 			var target Expr
@@ -661,7 +672,7 @@ func ParseSpecFile(path string, pkgPath string) (*SpecFile, error) {
 				if err != nil {
 					return nil, fmt.Errorf("%s:%d: %v", path, it.line, err)
 				}
-				ls.Ghosts = append(ls.Ghosts, GhostLoopVar{n, ty, ini, upd})
+				ls.Ghosts = append(ls.Ghosts, GhostLoopVar{Name: n, Type: ty, Init: ini, Update: upd})
 			default:
 				return nil, fmt.Errorf("%s:%d: unknown loop clause %q", path, it.line, k)
 			}
